@@ -475,17 +475,36 @@ Proof. vm_compute. reflexivity. Qed.
 SPEC["C19"] = {
     "header": """C19 — what you put into a filter is what you read back.
 
-   Proved here (factory/TextFacts.v over factory/Text.v): the text-level core of the read-back path.
-   Conditions built with lists are stored as the rendered list [quote_list vs] and read back with
-   tools.to_list ([to_list]: drop the brackets, split at every comma, strip the quotes).  That inverts
-   the quoting exactly on values free of commas, double quotes and backslashes (C19_to_list_inverts)
-   and provably not beyond (C19_comma_refuted, C19_quote_refuted: the known findings of C19).
-   The per-test args_as_tuple code, the negation folding of get_filter_conditions and the reload path
-   are exercised on the implementation for all supported forms (created by addfilter, by updatefilter on
-   an enabled and on a disabled filter; read back on the original set, while disabled, after enabling
-   again, and on the reloaded set).""",
-    "imports": TEXT_IMPORTS,
+   Models: factory/Build.v (__create_filter) and factory/Read.v (Command.walk, the args_as_tuple methods of
+   header / size / exists / envelope / body / currentdate and of actions, the folding of `not` into the match type,
+   get_filter_conditions / get_filter_actions / get_filter_matchtype, getfilter), both run against the
+   implementation on every check -- on sets built through the API (enabled and disabled filters) and on the same
+   sets saved and loaded back, crashes (AttributeError on list values) included.
+   Proved (factory/ReadFacts.v):
+     (a) C19_conditions_read_back: for EVERY non-empty list of documented condition forms the property lists
+         (header with string values, exists / notexists, size, envelope with lists, body with transform,
+         currentdate with and without a relational operator; the :not / not forms included; any number of
+         conditions) whose values are free of commas, double quotes and backslashes, every list of documented
+         actions, anyof or allof: the filter __create_filter builds is read back by get_filter_conditions as
+         EXACTLY the tuples supplied (element by element: str, list, int) and by get_filter_matchtype as the match
+         type supplied;
+     (b) C19_actions_read_back: get_filter_actions returns exactly the actions supplied, for actions written with
+         positional strings and value-less tags (fileinto with :copy/:create, redirect with :copy, reject, discard,
+         stop, vacation with :mime and a reason);
+     (c) the text-level core: tools.to_list inverts __quote_list exactly on values free of commas, double quotes
+         and backslashes (C19_to_list_inverts) and provably not beyond (C19_comma_refuted, C19_quote_refuted: the
+         known findings of C19).
+   A disabled filter: getfilter returns the tree inside the wrapper, which is the tree that was built (C12's
+   refinement: op_get on a disabled entry), so (a) and (b) apply unchanged (the example evaluates exactly that).
+   Not proved: the read-back on RELOADED sets (trees built by the parser take the list branch of args_as_tuple);
+   address conditions, notsize, values with commas (known findings).  These are evaluated on the implementation
+   and, for the model, by the differential run on reloaded sets.""",
+    "imports": TEXT_IMPORTS + "From SV Require Import Tables ArgCheck ArgSpec Machine Printer GenTables Ops Build BuildFacts BuildSet Read ReadFacts.\n",
     "theorems": [
+        ("C19_conditions_read_back", "ReadFacts.factory_read_filter", "conditions (negated forms included) and match type are read back exactly as supplied"),
+        ("C19_actions_read_back", "ReadFacts.factory_read_actions", "actions written with positional strings and value-less tags are read back exactly as supplied"),
+        ("C19_example_hypotheses", "ReadFacts.ex_r_ok", "non-vacuity: seven condition forms (five negated) and three actions meet the hypotheses"),
+        ("C19_example_pipeline", "ReadFacts.ex_read_pipeline", "... and, evaluated on the models: added, disabled, read back through getfilter"),
         ("C19_to_list_inverts", "TextFacts.to_list_quote_list",
          "reading a rendered list back gives the values, for values free of commas, quotes and backslashes"),
         ("C19_single_value", "TextFacts.strip_dq_quote_plain", "a single quoted value is read back by stripping the quotes"),
